@@ -51,7 +51,21 @@ impl Ord for PreReleaseIdentifier {
     fn cmp(&self, other: &Self) -> Ordering {
         match (self, other) {
             (PreReleaseIdentifier::UInt(a), PreReleaseIdentifier::UInt(b)) => a.cmp(b),
-            (PreReleaseIdentifier::Str(a), PreReleaseIdentifier::Str(b)) => a.cmp(b),
+            (PreReleaseIdentifier::Str(a), PreReleaseIdentifier::Str(b)) => {
+                // A numeric identifier beyond u64 is kept as text by the parser: it still compares
+                // by value and ranks below every alphanumeric identifier
+                let numeric = |s: &str| {
+                    !s.is_empty()
+                        && s.bytes().all(|c| c.is_ascii_digit())
+                        && s.parse::<u64>().is_err()
+                };
+                match (numeric(a), numeric(b)) {
+                    (true, true) => a.len().cmp(&b.len()).then_with(|| a.cmp(b)),
+                    (true, false) => Ordering::Less,
+                    (false, true) => Ordering::Greater,
+                    (false, false) => a.cmp(b),
+                }
+            }
             (PreReleaseIdentifier::UInt(_), PreReleaseIdentifier::Str(_)) => Ordering::Less,
             (PreReleaseIdentifier::Str(_), PreReleaseIdentifier::UInt(_)) => Ordering::Greater,
         }
